@@ -28,7 +28,9 @@ def _frame():
         "d": [dt.date(2020, 2, 29), None, dt.date(1999, 12, 31), dt.date(2021, 1, 1), dt.date(2020, 2, 28)],
         "t": [dt.datetime(2020, 2, 29, 12, 30, 1), dt.datetime(2001, 1, 1, 0, 0, 0), None, dt.datetime(2021, 6, 1, 23, 59, 59),
               dt.datetime(2020, 2, 28, 1, 2, 3)],
-    }, schema={"k": pl.Int64, "i": pl.Int64, "f": pl.Float64, "s": pl.String, "b": pl.Boolean, "d": pl.Date, "t": pl.Datetime("us")})
+        "u": [dt.timedelta(days=1), dt.timedelta(seconds=5), None, dt.timedelta(hours=-3), dt.timedelta(0)],
+    }, schema={"k": pl.Int64, "i": pl.Int64, "f": pl.Float64, "s": pl.String, "b": pl.Boolean, "d": pl.Date, "t": pl.Datetime("us"),
+               "u": pl.Duration("us")})
 
 
 _TABLES = {}
@@ -41,16 +43,23 @@ def tables():
     if not _TABLES:
         df = _frame()
         eng = sqa.create_engine("sqlite://")
-        df.write_database("c12grid", eng)
+        df.drop("u").write_database("c12grid", eng)      # SQLite has no interval type: the duration column exists on Polars only
         _TABLES["polars"] = lambda: pdt.Table(df, name="c12grid")
         _TABLES["sqlite"] = lambda: pdt.Table("c12grid", pdt.SqlAlchemy(eng))
     return _TABLES
 
 
+def _Duration():
+    from pydiverse.transform._internal.tree import types
+
+    return types.Duration()
+
+
 def _col_types():
     import pydiverse.transform as pdt
 
-    return [("i", pdt.Int64()), ("f", pdt.Float64()), ("s", pdt.String()), ("b", pdt.Bool()), ("d", pdt.Date()), ("t", pdt.Datetime())]
+    return [("i", pdt.Int64()), ("f", pdt.Float64()), ("s", pdt.String()), ("b", pdt.Bool()), ("d", pdt.Date()), ("t", pdt.Datetime()),
+            ("u", _Duration())]
 
 
 def _const_values(ty):
@@ -70,6 +79,8 @@ def _const_values(ty):
         return [dt.date(2000, 1, 1)]
     if ty == pdt.Datetime():
         return [dt.datetime(2000, 1, 1, 1, 1, 1)]
+    if ty == _Duration():
+        return [dt.timedelta(hours=2)]
     return []
 
 
